@@ -161,13 +161,14 @@ def user_seq_stream(res, rng, n):
             super().__init__(parent, name)
             self.a = self.addIn('a', a)
             self.cnt = self.addOut('cnt', cnt)
-            self.count, self.stops, self.simref, self.noisy = 0, set(stops), simref, noisy
+            self.count, self.stops, self.simref, self.noisy, self.fired = 0, set(stops), simref, noisy, 0
 
         def clock(self):
             self.count += 1
             if self.noisy:
                 self.cnt.prepare(self.count + self.a.get())
             if self.count in self.stops:
+                self.fired += 1
                 self.simref[0].stop()          # request to stop after this edge
 
     def build(spec):
@@ -188,22 +189,35 @@ def user_seq_stream(res, rng, n):
             py4hw.Reg(hw, f'r{k}', prev, q, enable=busy if spec['en'][k] else None)
             prev = q
         cap = StreamCapture(hw, 'cap', prev)
-        Stopper(hw, 'stp', qs[0], cnt, spec['stops'], simref, spec['noisy'])
+        stp = Stopper(hw, 'stp', qs[0], cnt, spec['stops'], simref, spec['noisy'])
         sim = hw.getSimulator()
         simref[0] = sim
-        return hw, sim, [code, busy, cnt] + qs, cap
+        return hw, sim, [code, busy, cnt] + qs, cap, stp
+
+    class Rec:
+        """a listener: the simulator notifies it after EVERY edge, also inside a multi-cycle call"""
+        def __init__(self, sim, wires):
+            self.sim, self.wires, self.seen = sim, wires, []
+
+        def simulatorUpdated(self):
+            self.seen.append((self.sim.total_clks,) + tuple(w_.get() for w_ in self.wires))
 
     def run(spec, splitting):
-        hw, sim, wires, cap = build(spec)
+        hw, sim, wires, cap, stp = build(spec)
+        rec = Rec(sim, wires)
+        sim.addListener(rec)
         marks = {}
+        calls = []
         for n in splitting:
             target = sim.total_clks + n
             guard = 0
             while sim.total_clks < target and guard < 4 * n + 8:
-                sim.clk(target - sim.total_clks)      # resumes after a stop() requested from inside clock()
+                k, c0, f0 = target - sim.total_clks, sim.total_clks, stp.fired
+                sim.clk(k)      # resumes after a stop() requested from inside clock()
+                calls.append((k, sim.total_clks - c0, stp.fired - f0))
                 guard += 1
             marks[sim.total_clks] = tuple(w_.get() for w_ in wires)
-        return marks, list(cap.data), sim.total_clks
+        return marks, list(cap.data), sim.total_clks, rec.seen, calls
 
     for i in range(n):
         r = rng.fork(i)
@@ -225,15 +239,28 @@ def user_seq_stream(res, rng, n):
         try:
             with contextlib.redirect_stdout(io.StringIO()):
                 # reference: single-cycle calls and a breakpoint block that never fires
-                ref_marks, ref_cap, ref_clks = run(dict(spec, stops=[]), [1] * N)
+                ref_marks, ref_cap, ref_clks, ref_seen, _ = run(dict(spec, stops=[]), [1] * N)
                 outs = [(sp, run(dict(spec), sp)) for sp in splits]
         except Exception as e:
             res.hist('simulation_errors', f'userseq:{type(e).__name__}:{str(e)[:40]}')
             continue
         res.count(('userseq', i, str(spec)), nontrivial=True, hist={'user_seq_stops': len(spec['stops'])})
-        for sp, (marks, cap, clks) in outs:
+        for sp, (marks, cap, clks, seen, calls) in outs:
             bad = None
-            if clks != ref_clks:
+            for (asked, done, fired) in calls:
+                # a call with k >= 1 cycles simulates at least one edge, and all k of them unless stop() was requested DURING that call
+                if done < 1 or (fired == 0 and done != asked):
+                    bad = (f'a clk({asked}) call simulated {done} edges although {fired} stop() requests were made during it '
+                           '(a stop request was carried over to a later call, or cycles were lost)')
+                    break
+            if bad is None and seen != ref_seen:
+                k_ = next((j for j in range(min(len(seen), len(ref_seen))) if seen[j] != ref_seen[j]), min(len(seen), len(ref_seen)))
+                bad = (f'a simulator listener saw {len(seen)} notifications, {len(ref_seen)} with single-cycle calls; first difference at '
+                       f'notification {k_}: {seen[k_] if k_ < len(seen) else None} vs {ref_seen[k_] if k_ < len(ref_seen) else None} '
+                       '(clk count, code, busy, cnt, q..)')
+            if bad is not None:
+                pass
+            elif clks != ref_clks:
                 bad = f'{clks} edges were simulated instead of {ref_clks}'
             else:
                 for c, st in marks.items():
